@@ -197,6 +197,50 @@ structure SolutionSized (d : ProblemData α) (sol : Unscale.Solution α) : Prop 
   some_s : ∀ p, presolveMap d = some p → sol.s.size = p.keep.size
   some_z : ∀ p, presolveMap d = some p → sol.z.size = p.keep.size
 
+/-! ### the norm caches: neither `DataOK` nor `SolutionSized` looks at them; `fillNorms` is total -/
+
+theorem DataOK.withNorms {d : ProblemData α} (h : DataOK d) (a b : Option α) :
+    DataOK { d with normq := a, normb := b } :=
+  ⟨h.P_canon, h.P_m, h.P_n, h.P_triu, h.A_canon, h.A_m, h.A_n, h.q, h.b, h.eq_d, h.eq_dinv, h.eq_e,
+    h.eq_einv, h.keep⟩
+
+theorem SolutionSized.withNorms {d : ProblemData α} {sol : Unscale.Solution α} (h : SolutionSized d sol)
+    (a b : Option α) : SolutionSized { d with normq := a, normb := b } sol :=
+  ⟨h.x, h.none_s, h.none_z, h.some_s, h.some_z⟩
+
+/-- `get_normq(); get_normb()` never panics on well-formed data -/
+theorem fillNorms_ok {d : ProblemData α} (h : DataOK d) :
+    ∃ nq nb, fillNorms d = .ok { d with normq := some nq, normb := some nb } := by
+  have hE : ∀ {x v : Array α}, x.size = v.size →
+      Info.normInfScaledE x v = .ok (Vec.normInfScaled x v) := by
+    intro x v hxv
+    unfold Info.normInfScaledE
+    rw [hxv]
+    simp only [bne_self_eq_false, Bool.false_eq_true, if_false]
+    rfl
+  have hq : ∃ nq, Info.getNormq d.normq d.q d.equilibration.dinv d.equilibration.c = .ok nq := by
+    unfold Info.getNormq
+    cases d.normq with
+    | some v => exact ⟨v, rfl⟩
+    | none =>
+      dsimp only
+      rw [hE (by rw [h.q, h.eq_dinv])]
+      exact ⟨_, rfl⟩
+  have hb : ∃ nb, Info.getNormb d.normb d.b d.equilibration.einv = .ok nb := by
+    unfold Info.getNormb
+    cases d.normb with
+    | some v => exact ⟨v, rfl⟩
+    | none =>
+      dsimp only
+      rw [hE (by rw [h.b, h.eq_einv])]
+      exact ⟨_, rfl⟩
+  obtain ⟨nq, hq⟩ := hq
+  obtain ⟨nb, hb⟩ := hb
+  refine ⟨nq, nb, ?_⟩
+  unfold fillNorms
+  rw [bind_ok_of hq, bind_ok_of hb]
+  rfl
+
 end
 
 end Clarabel.Solver
